@@ -211,6 +211,8 @@ def single_read_case(draw, tier):
 SUBCHECKS = [
     SubCheck("histories", body_history, history_case, quick=14000, thorough=1000000, shards_quick=14,
              doc="program with vs. without inserted read-only operations (K1 region steered around)"),
+    SubCheck("histories-coverage-guided", body_history, history_case, kind="atheris", quick=0, thorough=1200000, shards_thorough=16,
+             doc="thorough only: atheris/libFuzzer drives the history strategy through Hypothesis' fuzz_one_input (16 campaigns)"),
     SubCheck("single-read-preserves-content", body_single_read, single_read_case, quick=14000, thorough=800000, shards_quick=8,
              doc="one array of any dtype / shape (uniform row lengths boosted), one of ~90 read-only operations, then content and a "
                  "follow-up broadcast are compared with the generating rows / numpy"),
